@@ -101,10 +101,10 @@ Definition w24_blocks : list block :=
 Lemma F24_refuted :
   inv w24_blocks /\ exists bs' log,
     fix_blocks unchanged fl_all (fun _ => []) [i_np] w24_blocks [] [] = Ok (bs', log) /\
-    forall R, pp R unchanged bs' = Err EConflict.
+    forall R NC, pp R NC unchanged bs' = Err EConflict.
 Proof.
   split; [apply inv_b_inv; vm_compute; reflexivity|].
-  eexists. eexists. split; [vm_compute; reflexivity|]. intros R. reflexivity.
+  eexists. eexists. split; [vm_compute; reflexivity|]. intros R NC. reflexivity.
 Qed.
 Example F24_repaired :
   exists bs', fix_blocks repaired fl_all (fun _ => []) [i_np] w24_blocks [] [] = Ok (bs', [(i_np, None, Refused)]).
@@ -143,8 +143,8 @@ Proof. eexists. vm_compute. reflexivity. Qed.
 Definition w38_blocks : list block := [Other [mkStmt KBlank (dec "# c")] None].
 Lemma F38_refuted :
   exists nb, insert_new unchanged w38_blocks = Ok ((w38_blocks ++ [Imps nb; sep_block])%list, nb) /\
-             forall R, pp R unchanged w38_blocks = Ok (dec "# c") /\ ends_nl (dec "# c") = false.
-Proof. eexists. split; [vm_compute; reflexivity|]. intros R. split; reflexivity. Qed.
+             forall R NC, pp R NC unchanged w38_blocks = Ok (dec "# c") /\ ends_nl (dec "# c") = false.
+Proof. eexists. split; [vm_compute; reflexivity|]. intros R NC. split; reflexivity. Qed.
 
 (* F9:  '"""doc"""\n"second"\nx = 1\n'  - two string statements in front of the new block *)
 Definition w9_blocks : list block :=
@@ -179,11 +179,23 @@ Example F40_repaired :
   exists rest nb, insert_new repaired w40_blocks = Ok ((Imps nb :: sep_block :: rest)%list, nb).
 Proof. eexists. eexists. vm_compute. reflexivity. Qed.
 
+(* F45:  "x = 1; \\\nimport foo\n"  with foo unused: the emptied block leaves the backslash dangling;
+   "    # c \\\nimport foo\n": the backslash ends a comment, nothing is continued, nothing is printed *)
+Definition w45_blocks : list block :=
+  [Other [mkStmt KCode (dec "x = 1; $5c;$a;")] None; Imps (mkIB 1 2 true 3 true [])].
+Definition w45c_blocks : list block :=
+  [Other [mkStmt KBlank (dec "    # c $5c;$a;")] None; Imps (mkIB 1 2 true 3 true [])].
+Lemma F45_refuted :
+  pp (fun _ => []) (fun _ => true) unchanged w45_blocks = Ok (dec "x = 1; $5c;$a;") /\
+  pp (fun _ => []) (fun _ => true) repaired w45_blocks = Ok (dec "x = 1; $5c;$a;$a;") /\
+  pp (fun _ => []) (fun _ => false) repaired w45c_blocks = Ok (dec "    # c $5c;$a;").
+Proof. repeat split; vm_compute; reflexivity. Qed.
+
 (* non-vacuity of no_internal_error: its hypotheses hold of the F35 input *)
 Example no_internal_error_nonvacuous :
   inv wnv_blocks /\ ok_seq (iblocks wnv_blocks) /\
   exists bs' log t, fix_blocks repaired fl_all known_np [i_div; i_os] wnv_blocks [(3, dec "np.alpha")] [(1, i_qq)] = Ok (bs', log)
-                    /\ pp (fun l => List.concat (map i_as l)) repaired bs' = Ok t.
+                    /\ pp (fun l => List.concat (map i_as l)) (fun _ => true) repaired bs' = Ok t.
 Proof.
   destruct F35_refuted as [H1 [H2 _]]. split; [exact H1|]. split; [exact H2|].
   eexists. eexists. eexists. split; vm_compute; reflexivity.
